@@ -122,9 +122,17 @@ HAND = [
     # an unparsable file's includes are not followed; a directory include
     {"places": ["a.circom", "b.circom", "c.circom"], "links": {}, "libs": [],
      "incs": {"a.circom": ["b.circom", "sub"], "b.circom": ["c.circom"], "c.circom": []}, "broken": ["b.circom"], "inputs": ["a.circom"], "mkdirs": ["sub"]},
-    # an unreadable (non UTF-8) file: one unlocated error, its includes are not followed
+    # an unreadable (non UTF-8) file: one error, located at the include statement; its includes are not followed
     {"places": ["a.circom", "b.circom", "c.circom"], "links": {}, "libs": [], "binary": ["b.circom"],
      "incs": {"a.circom": ["b.circom", "b.circom"], "b.circom": ["c.circom"], "c.circom": []}, "broken": [], "inputs": ["a.circom"]},
+    # hidden files and dot-relative paths that only a library directory has; a library file given through a symbolic link
+    {"places": ["a.circom", "lib/.hidden.circom", "lib/.priv/h.circom", "lib/common/x.circom", "store/real.circom"], "links": {"mylib.circom": "store/real.circom"},
+     "libs": ["lib", "mylib.circom"],
+     "incs": {"a.circom": [".hidden.circom", ".priv/h.circom", "./common/x.circom", "mylib.circom", "real.circom"], "lib/.hidden.circom": [], "lib/.priv/h.circom": [],
+              "lib/common/x.circom": [], "store/real.circom": []}, "broken": [], "inputs": ["a.circom"]},
+    # an unreadable file reached through a file that is itself only included, and an unreadable file that is named
+    {"places": ["a.circom", "b.circom", "c.circom", "d.circom"], "links": {}, "libs": [], "binary": ["c.circom", "d.circom"],
+     "incs": {"a.circom": ["b.circom"], "b.circom": ["c.circom", "nope.circom"], "c.circom": [], "d.circom": []}, "broken": [], "inputs": ["a.circom", "d.circom"]},
     # the same file named three times
     {"places": ["a.circom", "b.circom"], "links": {"s.circom": "a.circom"}, "libs": [],
      "incs": {"a.circom": ["b.circom"], "b.circom": ["a.circom"]}, "broken": [], "inputs": ["a.circom", "./a.circom", "s.circom", "b.circom"]},
@@ -189,7 +197,8 @@ def abstract(base, proj, texts):
             libs.append(("d", es))
         elif lp.endswith(".circom") and os.path.exists(lp):
             c = os.path.realpath(lp)
-            libs.append(("f", fid(c), kid(os.path.basename(c))))
+            # a library file is known by the name it was given on the command line (it may be a symbolic link)
+            libs.append(("f", fid(c), kid(os.path.basename(lp))))
     table = {}
     for canon, (p, lst) in per_file.items():
         rows = []
@@ -238,8 +247,7 @@ def spec_reach(ab):
             return rel
         for l in ab["libs"]:
             if l[0] == "d":
-                if dot:
-                    continue
+                # the property: relative to the including file, then through the libraries — whatever the written path looks like
                 for k, f in l[1]:
                     if k == key:
                         return f
@@ -309,7 +317,11 @@ def run(ctx):
             if set(real_files) != want_files:
                 problems.append("files read %s, reachable %s" % (sorted(os.path.relpath(x, base) for x in set(real_files)), sorted(os.path.relpath(x, base) for x in want_files)))
             parse, batches = rl.real_batches(rep)
-            inc_errs = [r for r in parse if r["message"].startswith("Failed to open file") and r["primary"]]
+            def names_existing_file(r):
+                q = r["message"].split("`")[1] if "`" in r["message"] else ""
+                return os.path.isabs(q) and os.path.isfile(q)
+            # an include that cannot be resolved names the path as written; a file that cannot be read names the canonical path
+            inc_errs = [r for r in parse if r["message"].startswith("Failed to open file") and r["primary"] and not names_existing_file(r)]
             unlocated = [r for r in parse if r["message"].startswith("Failed to open file") and not r["primary"]]
             got_errs = []
             for r in inc_errs:
@@ -322,10 +334,23 @@ def run(ctx):
                     problems.append("include error `%s` is not located at an include statement (%d-%d)" % (r["message"], l["start"], l["end"]))
                 else:
                     got_errs.append((fidx, hit[0]))
-            want_os = sorted(ab["canon_of"][f] for f in seen if not ab["readable"][f])
+            # a file that cannot be read: named on the command line, the error has no location; reached through an include, the
+            # error is located at an include statement that names it (audit C19 f1: it had no location and was displayed although
+            # the including file was itself only included)
+            want_os = sorted(ab["canon_of"][f] for f in seen if not ab["readable"][f] and f in ab["inputs"])
             got_os = sorted(os.path.realpath(r["message"].split("`")[1]) for r in unlocated)
             if want_os != got_os:
-                problems.append("unlocated file errors for %s, unreadable reachable files %s" % ([os.path.relpath(x, base) for x in got_os], [os.path.relpath(x, base) for x in want_os]))
+                problems.append("unlocated file errors for %s, unreadable named files %s" % ([os.path.relpath(x, base) for x in got_os], [os.path.relpath(x, base) for x in want_os]))
+            located_os = [r for r in parse if r["message"].startswith("Failed to open file") and r["primary"] and names_existing_file(r)]
+            want_inc = sorted(ab["canon_of"][f] for f in seen if not ab["readable"][f] and f not in ab["inputs"])
+            got_inc = sorted(os.path.realpath(r["message"].split("`")[1]) for r in located_os)
+            if want_inc != got_inc:
+                problems.append("located file errors for %s, unreadable included files %s" % ([os.path.relpath(x, base) for x in got_inc], [os.path.relpath(x, base) for x in want_inc]))
+            for r in located_os:
+                l = r["primary"][0]
+                pos = ab["inc_pos"].get(ab["ids"].get(os.path.realpath(l["file"])), [])
+                if not any(l["start"] == a for a, b in pos):
+                    problems.append("file error `%s` is not located at an include statement (%d-%d)" % (r["message"][:60], l["start"], l["end"]))
             if set(got_errs) != unresolved:
                 problems.append("include errors %s, unresolved includes %s" % (sorted(got_errs), sorted(unresolved)))
             stats["include errors"] += len(got_errs)
@@ -389,6 +414,32 @@ def run(ctx):
                 if os.path.realpath(m2.group(1)) not in user_canon:
                     ctx.violation("included-only-file-displayed", {"project": proj, "stage": "L1 binary", "file": os.path.relpath(m2.group(1), base), "broken": None})
                     break
+    # ---- a directory named on the command line: every Circom file below it is read once, also when symbolic links lead back into the
+    #      tree (audit C19 f5: the traversal followed them until the path became too long — exponentially many paths with two links)
+    cli = vlib.build_cli()
+    with vlib.Workdir("c19d") as wd3:
+        tmpl = "pragma circom 2.0.0;\ntemplate %s() { signal input a; signal output b; b <== a; }\n"
+        layouts = [
+            ("plain", {"d/a.circom": tmpl % "A", "d/sub/b.circom": tmpl % "B"}, {}),
+            ("self-link", {"d/a.circom": tmpl % "A"}, {"d/l1": "."}),
+            ("two-self-links", {"d/a.circom": tmpl % "A", "d/sub/b.circom": tmpl % "B"}, {"d/l1": ".", "d/l2": "."}),
+            ("link-to-parent", {"d/a.circom": tmpl % "A", "d/sub/b.circom": tmpl % "B"}, {"d/sub/up": "..", "d/sub/up2": "../sub"}),
+            ("link-to-sibling-dir", {"d/x/a.circom": tmpl % "A", "d/y/b.circom": tmpl % "B"}, {"d/x/toy": "../y", "d/y/tox": "../x"}),
+        ]
+        for name, files, links in layouts:
+            base = os.path.join(wd3.path, name)
+            for rel, text in files.items():
+                wd3.write(os.path.join(name, rel), text.encode())
+            for rel, target in links.items():
+                os.symlink(target, os.path.join(base, rel))
+            res = rl.run_cli(cli, {"inputs": [os.path.join(base, "d")], "libs": []}, timeout=20)
+            stats["named-directory runs"] += 1
+            analysed = sorted(re.findall(r"analyzing template '(\w+)'", res["stdout"]))
+            want = sorted(re.search(r"template (\w+)", t).group(1) for t in files.values())
+            if res["rc"] != 0 or analysed != want:
+                l1 += 1
+                ctx.violation("named-directory %s" % name, {"stage": "L1 a named directory with symbolic links back into the tree", "files": sorted(files), "links": links,
+                                                            "exit": res["rc"], "analysed": analysed, "expected": want, "stdout_tail": res["stdout"][-600:], "broken": None})
     if not ok:
         ctx.violation("theorem " + ";".join(failing)[:200], {"broken": "theorem", "failing": failing}, no_input=True)
     cov = ctx.coverage
